@@ -20,6 +20,13 @@ def gate(ctrl, tag, name, info=""):
         return
     mode = os.environ.get("RTM_C18_MODE", "gated")
     if name == "cc_done" and mode in ("gated", "free"):
+        fail = os.environ.get("RTM_C18_CCFAIL", "")
+        if fail and fail.split(":")[0] == name:
+            import signal
+            if fail.split(":")[1] == "EXIT1":
+                sys.exit(1)
+            os.kill(os.getpid(), getattr(signal, fail.split(":")[1]))
+            time.sleep(5)
         return
     n = _count(ctrl, tag)
     at = os.path.join(ctrl, "%s.at.%d" % (tag, n))
@@ -61,6 +68,15 @@ def gate(ctrl, tag, name, info=""):
         time.sleep(0.0005)
         if time.monotonic() - t0 > 120:
             sys.exit(97)
+    fail = os.environ.get("RTM_C18_CCFAIL", "")
+    if fail and fail.split(":")[0] == name:
+        # this compiler run fails here, once it has been granted the gate (the caller sees a failed build)
+        import signal
+        sig = fail.split(":")[1]
+        if sig == "EXIT1":
+            sys.exit(1)
+        os.kill(os.getpid(), getattr(signal, sig))
+        time.sleep(5)
 
 
 def _count(ctrl, tag):
